@@ -114,4 +114,28 @@ def run(ctx):
         r.ok("finish: set_progress(max) on every path except 'already complete and not overwriting'")
     else:
         r.fail(fin, fin.node, "finish", "finish can return without drawing the final frame (set_progress(max) is skipped)")
+
+    # ---------------------------------------------------------------- R5
+    r = ctx.rule("C16-R5", "OWNER", "the throttle reference and the 'length of the frame on screen' are bookkeeping of "
+                 "the last write: only the writer of a frame (and the constructor) assigns them", reference=4)
+    for fld in ("_last_write_time", "_last_messages_length"):
+        writers = {}
+        for name, m in methods.items():
+            for node, kind, t in q.writes_to_self_attr(m, fld):
+                writers.setdefault(name, []).append(node)
+        frame_writers = set()
+        for name in writers:
+            m = methods[name]
+            # a frame writer performs a stream write through the io
+            if any(isinstance(c.func, ast.Attribute) and c.func.attr in ("write", "write_line") and is_self_attr(c.func.value) for c in q.calls(m)):
+                frame_writers.add(name)
+        for name, nodes in sorted(writers.items()):
+            if name == "__init__" or name in frame_writers:
+                r.ok("%s assigned in %s" % (fld, name))
+            else:
+                m = methods[name]
+                r.fail(m, nodes[0], "%s: %s" % (name, norm(nodes[0])), "ProgressBar.%s changes %s although it draws no frame: %s" % (name, fld,
+                       "the next advance is no longer throttled against the last real write" if "time" in fld else "the next frame no longer pads over what is still on the line (residue of the longer frame)"))
+        if not writers:
+            r.note("%s is not used any more" % fld)
     return ctx.results
